@@ -154,6 +154,13 @@ class FnSpec:
         self.selfarg = None
         self.like = None
         self.nested = {}
+        self.optcombs = []  # closure numbers whose Option/bool combinator call is inlined (R-OPTCOMB)
+        self.forindex = {}  # loop n -> (container expr, start expr)  (R-FORMUT)
+        self.closparams = {}  # (closure n, param k) -> type  (R-CLOSPAT)
+        self.header = None  # closurefn: the hand-written signature of the lifted closure (R-LIFT)
+        self.assertmacro = False  # R-PANIC for `assert!(E)`: `{ let __aN = E; proof { assert(__aN); } }`
+        self.pretailproof = None  # proof text placed in front of the tail expression
+        self.tailproof = None  # proof text placed between the bound tail expression and the return (R-TAILBIND)
 
 
 def parse_tags(s):
@@ -247,6 +254,24 @@ class Generator:
                     self.emit("// UNDECIDED view %s: %s" % (frest, u))
                 i = j
                 continue
+            if st.startswith("//@closurefn "):
+                # R-LIFT: the body of closure n of a function, verified as the body of a method whose parameters are the
+                # closure's parameters and its captures (signature given by `header`)
+                rest = st[len("//@closurefn "):]
+                frest, cn = rest.rsplit("::", 1)
+                saved = lines[i]
+                lines[i] = "//@fn " + frest.strip()
+                spec, j = self.parse_fn_block(lines, i)
+                lines[i] = saved
+                try:
+                    self.do_closurefn(spec, int(cn))
+                except Undecided as u:
+                    self.undecided.append(("%s :: %s (closure %s)" % (spec.file, spec.key, cn.strip()), str(u)))
+                    self.emit("// UNDECIDED %s :: %s closure %s: %s" % (spec.file, spec.key, cn.strip(), u))
+                    for oid, props in self.planned_ids(spec):
+                        self.obligations.append({"id": oid, "fn": spec.key, "props": props, "start": 0, "end": -1, "posed": False, "reason": str(u), "source": spec.file})
+                i = j + 1
+                continue
             if st.startswith("//@fn "):
                 spec, j = self.parse_fn_block(lines, i)
                 relfile, key = spec.file, spec.key
@@ -310,6 +335,10 @@ class Generator:
                     spec.loops[cur[1]] = text
                 elif k == "closure":
                     spec.closures[cur[1]] = text
+                elif k == "tailproof":
+                    spec.tailproof = text
+                elif k == "pretailproof":
+                    spec.pretailproof = text
                 cur = None
                 buf = []
 
@@ -385,6 +414,24 @@ class Generator:
                     elif cmd == "breakval":
                         w2 = arg.split(None, 1)
                         spec.breakvals.append((int(w2[0]), w2[1].strip() if len(w2) > 1 else None))
+                    elif cmd == "optcomb":
+                        spec.optcombs += [int(x) for x in arg.split()]
+                    elif cmd == "forindex":
+                        m = re.match(r'(\d+)\s+"([^"]*)"\s+"([^"]*)"\s*$', arg)
+                        if not m:
+                            raise RuntimeError("bad forindex directive: %r" % d)
+                        spec.forindex[int(m.group(1))] = (m.group(2), m.group(3))
+                    elif cmd == "closparam":
+                        w2 = arg.split(None, 3)
+                        spec.closparams[(int(w2[0]), int(w2[1]))] = (w2[2].strip(), w2[3].strip())
+                    elif cmd == "header":
+                        spec.header = arg.strip()
+                    elif cmd == "assertmacro":
+                        spec.assertmacro = True
+                    elif cmd == "tailproof":
+                        cur = ("tailproof", None, None)
+                    elif cmd == "pretailproof":
+                        cur = ("pretailproof", None, None)
                     elif cmd == "nested":
                         cur = ("nested", int(arg), None)
                     elif cmd == "loop":
@@ -570,6 +617,20 @@ class Generator:
             if m["name"] == "panic" and spec.panic is not None:
                 common.append((m["span"][0], m["span"][1], "{ proof { assert(%s); } diverge() }" % spec.panic))
                 self.log.append({"rule": "R-PANIC", "site": site})
+        if spec.assertmacro and not spec.external:
+            n = 0
+            for m in it["macros"]:
+                if m["name"] != "assert":
+                    continue
+                txt = src[m["span"][0]:m["span"][1]].decode()
+                mm = re.match(r"^assert\s*!\s*\(", txt)
+                if not mm or not txt.endswith(")"):
+                    raise Undecided("assertmacro: unexpected shape of `%s`" % txt[:40])
+                n += 1
+                common.append((m["span"][0], m["span"][0] + mm.end(), "{ let __a%d = " % n))
+                common.append((m["span"][1] - 1, m["span"][1], "; proof { assert(__a%d); } }" % n))
+            if n:
+                self.log.append({"rule": "R-PANIC", "site": site, "what": "assert!(E) => let + proof assert (the panic branch is proved dead)", "count": n})
         # wild fn params (the verus! macro wants identifiers)
         for pi, inp in enumerate(sig["inputs"]):
             if inp.get("wild"):
@@ -611,6 +672,104 @@ class Generator:
             if not c["body_is_block"]:
                 common.append((c["body"][0], c["body"][0], "{ "))
                 common.append((c["body"][1], c["body"][1], " }"))
+        # R-TAILBIND: `{ …; TAIL }` => `{ …; let __res = TAIL; proof { … } __res }` (an anchor for the exit proof)
+        if spec.tailproof is not None:
+            if it.get("tail") is None:
+                raise Undecided("tailproof: the body has no tail expression")
+            ts, te = it["tail"]
+            if spec.pretailproof is not None:
+                common.append((ts, ts, "proof {\n" + spec.pretailproof + "\n        }\n        "))
+            common.append((ts, ts, "let __res = "))
+            common.append((te, te, ";\n        proof {\n" + spec.tailproof + "\n        }\n        __res"))
+            self.log.append({"rule": "R-TAILBIND", "site": site})
+        # R-OPTCOMB: `E.map(|p| B)` / `C.then(|| B)` / `E.map_or(D, |p| B)` with the closure inlined, as std defines them
+        # (Verus rejects closures that capture a mutable reference; the match / if form is what the combinator does)
+        def clos_call(n):
+            if n < 1 or n > len(it["closures"]):
+                raise Undecided("optcomb: closure %d does not exist (lost anchor)" % n)
+            c = it["closures"][n - 1]
+            for call in it["calls"]:
+                if call.get("args") and call["args"][-1] == c["span"]:
+                    return c, call
+            raise Undecided("optcomb: closure %d is not the last argument of a method call" % n)
+        oc = [(n,) + clos_call(n) for n in spec.optcombs]
+        oc.sort(key=lambda x: -(x[2]["span"][1] - x[2]["span"][0]))  # outer calls first (insertions at the same offset keep this order)
+        for n, c, call in oc:
+            if n in spec.closures:
+                raise Undecided("optcomb: closure %d also carries a contract" % n)
+            nm = call["name"]
+            def bind(k):
+                """-> (pattern text for the match arm, let-prefix for the arm body)"""
+                prm = c["params"][k]
+                if prm["ident"] is None:
+                    raise Undecided("optcomb: closure %d parameter is not `&*ident`" % n)
+                if prm["refdepth"] == 0:
+                    return prm["ident"], ""
+                return "__o%d" % n, "let %s = %s__o%d; " % (prm["ident"], "*" * prm["refdepth"], n)
+            cs, ce = call["span"]
+            bs, be = c["body"]
+            if nm == "map" and len(call["args"]) == 1 and len(c["params"]) == 1:
+                pat, pre = bind(0)
+                common.append((cs, cs, "(match "))
+                common.append((call["recv"][1], bs, " { Some(%s) => Some({ %s" % (pat, pre)))
+                common.append((be, ce, " }), None => None })"))
+            elif nm == "then" and len(call["args"]) == 1 and len(c["params"]) == 0:
+                common.append((cs, cs, "(if "))
+                common.append((call["recv"][1], bs, " { Some("))
+                common.append((be, ce, ") } else { None })"))
+            elif nm == "map_or" and len(call["args"]) == 2 and len(c["params"]) == 1:
+                pat, pre = bind(0)
+                dflt = src[call["args"][0][0]:call["args"][0][1]].decode()
+                if not re.match(r"^(true|false|\d+)$", dflt.strip()):
+                    raise Undecided("optcomb: the default of `.map_or` is not a literal (evaluation order)")
+                common.append((cs, cs, "(match "))
+                common.append((call["recv"][1], bs, " { Some(%s) => { %s" % (pat, pre)))
+                common.append((be, ce, " }, None => %s })" % dflt))
+            else:
+                raise Undecided("optcomb: `.%s` with this shape is outside R-OPTCOMB" % nm)
+            self.log.append({"rule": "R-OPTCOMB", "site": site, "what": "`.%s(closure %d)` inlined as %s" % (nm, n, "if/else" if nm == "then" else "match")})
+        # R-CLOSPAT: a `&ident` closure parameter becomes a typed variable plus `let ident = *var;` (Verus wants plain variables)
+        for (n, k), (var, ty) in spec.closparams.items():
+            if n < 1 or n > len(it["closures"]) or k >= len(it["closures"][n - 1]["params"]):
+                raise Undecided("closparam: closure %d / parameter %d does not exist (lost anchor)" % (n, k))
+            c = it["closures"][n - 1]
+            prm = c["params"][k]
+            if prm["ident"] is None:
+                raise Undecided("closparam: parameter is not `&*ident`")
+            if prm["refdepth"] == 0:
+                common.append((prm["span"][0], prm["span"][1], "%s: %s" % (prm["ident"], ty)))
+            else:
+                common.append((prm["span"][0], prm["span"][1], "%s: %s" % (var, ty)))
+                let = "let %s = %s%s; " % (prm["ident"], "*" * prm["refdepth"], var)
+                if c["body_is_block"]:
+                    common.append((c["body"][0] + 1, c["body"][0] + 1, " " + let))
+                else:
+                    # the `closure` directive wraps an expression body in braces; put the let inside them
+                    if n not in spec.closures:
+                        raise Undecided("closparam on an expression-bodied closure needs a `closure` contract")
+                    common.append((c["body"][0], c["body"][0], let))
+            self.log.append({"rule": "R-CLOSPAT", "site": site, "what": "closure %d parameter %d typed `%s`" % (n, k, ty)})
+        # R-FORMUT: `for P in &mut *X` / `for P in X.iter_mut()[.skip(K)]` as an index loop over X
+        for n, (cont, start) in spec.forindex.items():
+            if n < 1 or n > len(it["loops"]):
+                raise Undecided("forindex: loop %d does not exist (lost anchor)" % n)
+            lp = it["loops"][n - 1]
+            if lp["kind"] != "for":
+                raise Undecided("forindex: loop %d is not a for loop" % n)
+            etxt = re.sub(r"\s+", "", src[lp["expr"][0]:lp["expr"][1]].decode())
+            c0 = re.sub(r"\s+", "", cont)
+            shapes = {"&mut*" + c0: "0", c0 + ".iter_mut()": "0", c0 + ".iter_mut().skip(%s)" % re.sub(r"\s+", "", start): start}
+            if etxt not in shapes or re.sub(r"\s+", "", shapes[etxt]) != re.sub(r"\s+", "", start):
+                raise Undecided("forindex: `%s` is not an iteration over `%s` from `%s`" % (etxt, cont, start))
+            pat = src[lp["pat"][0]:lp["pat"][1]].decode()
+            if not re.match(r"^\w+$", pat):
+                raise Undecided("forindex: loop pattern `%s` is not a variable" % pat)
+            kv = "__k%d" % n
+            common.append((lp["span"][0], lp["body_start"], "{ let mut %s: usize = %s; while %s < %s.len() " % (kv, start, kv, cont)))
+            common.append((lp["body_start"] + 1, lp["body_start"] + 1, " let %s = &mut %s[%s]; " % (pat, cont, kv)))
+            common.append((lp["body_end"], lp["body_end"], " %s += 1; " % kv))
+            common.append((lp["span"][1], lp["span"][1], " }"))
+            self.log.append({"rule": "R-FORMUT", "site": site, "what": "`for %s in %s` => index loop over `%s` from `%s`" % (pat, etxt, cont, start)})
         unspliced_loops = [k + 1 for k in range(len(it["loops"])) if (k + 1) not in spec.loops]
         if unspliced_loops and not spec.external:
             raise Undecided("loop(s) %s without invariant" % unspliced_loops)
@@ -657,6 +816,57 @@ class Generator:
             emitted_any = True
         if spec.view and any(sfx for sfx, _, _, _ in self.copies(spec)):
             self.emit_view(spec, src, it, base, site)
+
+    def do_closurefn(self, spec, n):
+        src, it = self.idx.find(spec.file, spec.key, kinds=("fn",))
+        self.sources.add(spec.file)
+        site = "%s::%s#closure%d" % (spec.file, spec.key, n)
+        if not spec.header or not spec.name:
+            raise RuntimeError("closurefn needs `name` and `header` (%s)" % site)
+        if n < 1 or n > len(it["closures"]):
+            raise Undecided("closure %d does not exist (lost anchor)" % n)
+        c = it["closures"][n - 1]
+        m = re.search(r"\bfn\s+" + re.escape(spec.name) + r"\b", spec.header)
+        if not m:
+            raise RuntimeError("closurefn header does not declare fn %s" % spec.name)
+        # the closure's own parameters must be plain variables that the header declares under the same names
+        for prm in c["params"]:
+            if prm["ident"] is None or prm["refdepth"] != 0:
+                raise Undecided("closure %d parameter is not a plain variable" % n)
+            if not re.search(r"[(,]\s*(mut\s+)?" + re.escape(prm["ident"]) + r"\s*:", spec.header):
+                raise Undecided("closure %d parameter `%s` is not a parameter of the lifted fn" % (n, prm["ident"]))
+        inner = [k for k, c2 in enumerate(it["closures"]) if c2["span"][0] > c["span"][0] and c2["span"][1] <= c["span"][1]]
+        if inner:
+            raise Undecided("closure %d contains closures (outside R-LIFT)" % n)
+        for lp in it["loops"]:
+            if lp["span"][0] >= c["body"][0] and lp["span"][1] <= c["body"][1]:
+                raise Undecided("closure %d contains a loop (outside R-LIFT)" % n)
+        eds = []
+        for mm in it["macros"]:
+            if mm["span"][0] >= c["body"][0] and mm["span"][1] <= c["body"][1]:
+                raise Undecided("closure %d contains the macro %s! (outside R-LIFT)" % (n, mm["name"]))
+        self.functions.append(site)
+        self.log.append({"rule": "R-LIFT", "site": site, "what": "closure body verified as the body of `%s`" % spec.name})
+        emitted_any = False
+        for suffix, case, props, ens in self.copies(spec):
+            nm = spec.name + suffix
+            req = list(spec.requires)
+            if case:
+                req = [case["when"]] + req + case["requires"]
+            spec_text = ""
+            if req:
+                spec_text += "\n    requires\n" + "".join("        %s,\n" % r.strip().rstrip(",") for r in req)
+            if ens:
+                spec_text += ("\n" if not req else "") + "    ensures\n" + "".join("        %s,\n" % r.strip().rstrip(",") for r in ens)
+            body = apply_edits(src, c["body"][0], c["body"][1], eds, spec.subs, self.log if not emitted_any else [], site)
+            header = spec.header[:m.start()] + "fn " + nm + spec.header[m.end():]
+            oid = "%s/%s%s" % (self.unit, spec.label or spec.name, ("#" + suffix[2:]) if suffix else "")
+            self.emit("// ---- extracted (R-LIFT, closure %d): %s  (obligation %s; properties %s)" % (n, site, oid, ",".join(props)))
+            start = self.lineno()
+            self.emit(header + spec_text + "{\n" + body + "\n}")
+            end = self.lineno() - 1
+            self.obligations.append({"id": oid, "fn": site, "vname": nm, "case": case["label"] if case else None, "props": props, "start": start, "end": end, "posed": True, "source": spec.file, "clauses": ens})
+            emitted_any = True
 
     def emit_view(self, spec, src, it, base, site):
         """caller view: external_body signature carrying `case ==> clause` of all cases."""
